@@ -208,7 +208,11 @@ def cases(tier):
     meshes = ['tqp', 'tq', 'fan'] if q else ['tqp', 'tq', 'fan', 'qqq']
     for mesh in meshes:
         for mo in (dict(), dict(start_index=1, fill='attr', face_centres=True),
-                   dict(transposed=True, supply=('edge_node',), face_centres=True)):
+                   dict(transposed=True, supply=('edge_node',), face_centres=True),
+                   # unsigned tables with the all-ones fill value kept as an attribute (in-memory / mask_and_scale=False)
+                   dict(fill='attr', dtype='uint32', fill_value=4294967295), dict(fill='attr', dtype='uint16', fill_value=65535, start_index=1)):
+            if mo.get('dtype', '').startswith('uint') and mesh in ('fan', 'qqq'):
+                continue
             if mesh in ('fan', 'qqq') and mo.get('fill') == 'attr':
                 mo = dict(mo, fill='none')
             for layout in (('plain',) if (q and mesh == 'fan') else ('plain', 'extra_first', 'extra_last')):
